@@ -99,8 +99,9 @@ func vhC17Reopen() {
 	st, err := NewStorage(storage.PortalStorageConfig{StorageCapacityMB: 1, NodeId: node}, s.db)
 	vsAssert(err == nil && st != nil, "reopen-succeeds")
 	cs := st.(*ContentStorage)
+	vhSharedMaxIntact()
 	if len(s.kv.live) == 0 {
-		vsAssert(cs.Radius().Eq(storage.MaxDistance), "fresh-store-has-maximum-radius")
+		vsAssert(cs.Radius().Eq(vhMaxDist()), "fresh-store-has-maximum-radius")
 		vsAssert(len(s.kv.commits) == 0, "fresh-open-writes-nothing")
 		vsCover("fresh")
 		return
@@ -114,7 +115,7 @@ func vhC17Reopen() {
 		vsAssert(len(s.kv.commits) == 0, "within-capacity-store-not-pruned-on-open")
 	}
 	if s.record <= vhCap/100*95 {
-		vsAssert(cs.Radius().Eq(storage.MaxDistance), "at-most-95-percent-full-keeps-maximum-radius")
+		vsAssert(cs.Radius().Eq(vhMaxDist()), "at-most-95-percent-full-keeps-maximum-radius")
 		vsCover("below-95-percent")
 		return
 	}
